@@ -386,6 +386,12 @@ def check(run):
             T = random_transform(rng, sum(s.size for s in specs))
             for fname in (names if not quick else rng.sample(names, 3)):
                 transform_case(run, specs, fname, env, T)
+            if n == 2:
+                from checks.common import near_identity_transforms
+                for lab, Tn in near_identity_transforms(rng, sum(s.size for s in specs)):
+                    for fname in (names if not quick else rng.sample(names, 3)):
+                        transform_case(run, specs, fname, env, Tn)
+                    run.count("transform " + lab)
     for k in range(1 if quick else 4):
         cs = []
         specs = [rand_shell(rng, (i + k) % 3, cs, nprim=rng.randint(1, 2), nseg=1 + i % 2, sph=bool((i + k) % 2), exp_lo=0.1, exp_hi=10.0) for i in range(2)]
@@ -433,6 +439,8 @@ def check(run):
             env = pf.default_env(rng, [spec, other])
             for fname in rng.sample(names, 2 if quick else 5):
                 convention_case(run, spec, [other], fname, env, None, pat)
+    for _ in range(3 if quick else 12):
+        iodata_case(run, rng)
     if not quick:
         cs = []
         spec = rand_shell(rng, 1, cs, sph=True, nprim=1, nseg=1, exp_lo=0.2, exp_hi=5.0)
@@ -440,8 +448,52 @@ def check(run):
         convention_case(run, spec, [other], "eri_chemist", None, None, ["-c0", "c1", "-s1"])
 
 
+def iodata_case(run, rng, lmax=3):
+    """the conventions (order of the Cartesian components, order *and signs* of the pure functions) that an IOData object declares
+    must show in every array computed from the basis that gbasis.wrappers.from_iodata builds: compared with the exact model of the
+    equivalent shells (overlap, evaluation) and, for the other functions, with the same shells given through a subclass"""
+    from gbasis.wrappers import from_iodata
+    from gbasis.integrals.overlap import overlap_integral
+    from gbasis.evals.eval import evaluate_basis
+    standin = install_iodata_standin()
+    mol, specs = iodata_molecule(rng, lmax)
+    basis = from_iodata(mol)
+    rep = {"case": "iodata", "basis": core.describe_basis(specs), "conventions": {f"{k[0]}{k[1]}": v for k, v in mol.obasis.conventions.items()},
+           "signature": {"kind": "iodata-convention"}}
+    run.case(("iodata",) + sig(specs), sample={"op": "from_iodata", "conventions": rep["conventions"]})
+    run.count("from_iodata with declared conventions" + (" (stand-in for iodata.convert)" if standin else ""))
+    ok = True
+    for sh, sp_ in zip(basis, specs):
+        decl_c = [tuple(c) for c in sp_.cart]
+        if [tuple(int(v) for v in c) for c in sh.angmom_components_cart] != decl_c or \
+                (sp_.sphord is not None and list(sh.angmom_components_sph) != list(sp_.sphord)):
+            run.violation(f"the l={sp_.l} shell built by from_iodata reports other component conventions than the IOData object declares "
+                          f"({list(sh.angmom_components_sph) if sp_.sphord is not None else ''} vs {sp_.sphord})", rep)
+            return False
+    pts = np.array([[core.snap(rng.uniform(-2, 2), 10) for _ in range(3)] for _ in range(3)])
+    model = run.model.array("overlap " + btok(specs))
+    ok &= compare(run, "overlap_integral(from_iodata(mol))", overlap_integral(basis), model, 1e-9 * max(1.0, float(np.abs(model).max())), rep, "iodata-convention")
+    line = ("evalderiv general " + btok(specs) + f" {len(pts)} " + " ".join(core.enc(x) for x in pts.ravel()) + " 0 0 0")
+    v, g = run.model.array_mag(line)
+    ok &= compare(run, "evaluate_basis(from_iodata(mol))", evaluate_basis(basis, pts), v, 1e-9 * g + 1e-300, rep, "iodata-convention")
+    env = pf.default_env(rng, specs)
+    ref = make_basis(specs)
+    for fname in ("kinetic", "momentum", "moment", "point_charge", "evaluate_deriv_basis(1,0,2)"):
+        f = pf.FUNCS[fname][0]
+        a, b = f(basis, env), f(ref, env)
+        if a.shape != b.shape or np.abs(a - b).max() > pf.rel_tol(fname, b):
+            run.violation(f"{fname}: the basis built by from_iodata gives another array than the same shells with the declared conventions", 
+                          dict(rep, function=fname))
+            ok = False
+    return ok
+
+
 def replay(run, rep):
     n0 = len(run.violations)
+    if rep["case"] == "iodata":
+        for _ in range(6):
+            iodata_case(run, run.rng)
+        return len(run.violations) == n0
     if rep["case"] == "labelled":
         T = np.array([[((3 * r + 2 * c) % 7) - 3 for c in range(200)] for r in range(4)], dtype=float)
         labelled_case(run, rep["kind"], tuple(rep["ls"]), rep["Ms"], rep["nextra"], tuple(rep["pattern"]),
